@@ -22,3 +22,14 @@ Example C15_text_instance :
   TOpenSquare :: TVar 0 :: TComma :: TCloseSquare :: TEq :: TNum 1%N :: TAnd ::
   TOpenSquare :: TVar 0 :: TComma :: TCloseSquare :: TEq :: TNum 1%N :: TAnd :: TTrue :: nil.
 Proof. vm_compute. reflexivity. Qed.
+
+(** the tie by translation (DESIGN 15.7c): the six loop nests of n_queens_gen/src/main.rs are re-read on every run and proved, for
+    all n, to be the six families below (generated lemmas fam_1 .. fam_6, by extensionality and lia / nia); this lemma then gives
+    "the items the source prints are queens_items n" *)
+From Rsbdd Require Import Lang.Ast Gen.GenText Gen.SrcLoops.
+Theorem C15_source_six n f1 f2 f3 f4 f5 f6 :
+  f1 = Queens.d1a n -> f2 = Queens.d1b n -> f3 = Queens.d2a n -> f4 = Queens.d2b n -> f5 = Queens.rows n -> f6 = Queens.cols n ->
+  map (ICount true AtMost) f1 ++ map (ICount true AtMost) f2 ++ map (ICount true AtMost) f3 ++ map (ICount true AtMost) f4 ++
+  map (ICount true Exactly) f5 ++ map (ICount true Exactly) f6 ++ nil = queens_items n.
+Proof. exact (queens_items_six n f1 f2 f3 f4 f5 f6). Qed.
+Print Assumptions C15_source_six.
